@@ -194,6 +194,10 @@ func rulesC10(c *Ctx) {
 						continue
 					}
 				}
+				if lenPlusPositive(d) {
+					c.OK("C10.divguard", key, c.P.InstrPos(in), "divisor is a length plus a positive constant")
+					continue
+				}
 				if ok, by := zeroGuarded(d, in); ok {
 					c.OK("C10.divguard", key, c.P.InstrPos(in), "divisor is checked non-zero: "+by)
 					continue
@@ -383,16 +387,18 @@ func rulesC10(c *Ctx) {
 					continue
 				}
 				nP++
-				key := fname(f) + " when " + innermostCond(in)
-				if seenP[key] {
-					continue
+				for _, atom := range guardAtoms(in) {
+					key := fname(f) + " when " + atom
+					if seenP[key] {
+						continue
+					}
+					seenP[key] = true
+					if reason, ok := c.Tabled("c10_panics", key); ok {
+						c.TabledOK("C10.panics", key, c.P.InstrPos(in), reason)
+						continue
+					}
+					c.Fail("C10.panics", key, c.P.InstrPos(in), "an explicit panic on the block-execution cone that is not in the reviewed inventory: if block content or transaction-reachable state can make its condition true, every node stops while executing the block; reached via "+g.Chain(parent, f))
 				}
-				seenP[key] = true
-				if reason, ok := c.Tabled("c10_panics", key); ok {
-					c.TabledOK("C10.panics", key, c.P.InstrPos(in), reason)
-					continue
-				}
-				c.Fail("C10.panics", key, c.P.InstrPos(in), "an explicit panic on the block-execution cone that is not in the reviewed inventory: if block content or transaction-reachable state can make its condition true, every node stops while executing the block; reached via "+g.Chain(parent, f))
 			}
 		}
 	}
@@ -400,6 +406,7 @@ func rulesC10(c *Ctx) {
 	c.Floor("C10.panics", nP, 40, "explicit panic sites on the block-execution cone")
 	c10VRFProofWriters(c)
 	c10ErrPathNil(c, g, cone)
+	c10GasMultipliers(c, cone)
 	rulesC10Round2(c, c.P.BuildIndex())
 }
 
@@ -703,4 +710,30 @@ func c10Support(c *Ctx) {
 		}
 		c.Check(ok, rule, fname(fn)+":genesis LastBlockFees reset to zero", c.P.Pos(fn.Pos()), "genesis fees are moved to the common pool and LastBlockFees is reset", "initLastBlockFees no longer resets LastBlockFees to zero: the first block would divide persisted fees by zero voters")
 	}
+}
+
+// lenPlusPositive: the value is len(x) + k (k a positive constant), possibly converted to another integer type: at
+// least k, never zero.
+func lenPlusPositive(v ssa.Value) bool {
+	for k := 0; k < 2; k++ {
+		if cv, ok := v.(*ssa.Convert); ok {
+			v = cv.X
+		}
+	}
+	bo, ok := v.(*ssa.BinOp)
+	if !ok || bo.Op != token.ADD {
+		return false
+	}
+	for _, pair := range [][2]ssa.Value{{bo.X, bo.Y}, {bo.Y, bo.X}} {
+		k, isC := pair[1].(*ssa.Const)
+		if !isC || k.Value == nil || k.Value.Kind() != constant.Int || constant.Sign(k.Value) <= 0 {
+			continue
+		}
+		if call, isCall := pair[0].(*ssa.Call); isCall {
+			if b, isB := call.Call.Value.(*ssa.Builtin); isB && (b.Name() == "len" || b.Name() == "cap") {
+				return true
+			}
+		}
+	}
+	return false
 }
